@@ -682,8 +682,15 @@ class Ovld:
     @_setattrs(rename="next")
     def next(self, *args):
         """Call the next matching method after the caller, in terms of priority or specificity."""
-        self.ensure_compiled()
         fr = sys._getframe(1)
+        if not self._compiled and not any(
+            getattr(h, "__code__", None) is fr.f_code
+            for h in getattr(getattr(self, "map", None), "type_tuples", ())
+        ):
+            # Build first, like every other reader of the table -- unless the
+            # caller is one of the methods this table dispatched to: then the
+            # table must not be rebuilt from under it
+            self.ensure_compiled()
         key = (fr.f_code, *map(subtler_type, args))
         method = self.map[key]
         return method(*args)
